@@ -569,7 +569,7 @@ def _events(f, cn, within=None):
 
 
 def _loopdep(guards):
-    return tuple(g for g in guards if "@i{" in g or g.startswith("?") or g.startswith("!?"))
+    return tuple(sorted(g for g in guards if "@i{" in g or g.startswith("?") or g.startswith("!?")))
 
 
 def suffix_specs(chk, fx):
@@ -620,7 +620,8 @@ def suffix_specs(chk, fx):
 
 
 def _compare(chk, rule, f, at, ev, want, exits_only_extra=False):
-    got = set(ev)
+    got = set((k, t, tuple(sorted(g))) for k, t, g in ev)
+    want = {(k, t, tuple(sorted(g))): why for (k, t, g), why in want.items()}
     for w, why in want.items():
         if w in got:
             chk.ok(rule, A.site(f, at), why)
